@@ -36,6 +36,10 @@ const (
 // vc13ChildTimeout is the HTTP timeout in the crash-point part.
 const vc13ChildTimeout = 10 * time.Second
 
+// vc13CrashHashMax is the size limit of the hash lists in the crash-point
+// part; large lists make the windows around the replacement of a file wider.
+const vc13CrashHashMax = 8 << 20
+
 // TestVerifC13Child is the body of the child process.  It does nothing unless
 // the parent asked for it.
 func TestVerifC13Child(t *testing.T) {
@@ -44,7 +48,7 @@ func TestVerifC13Child(t *testing.T) {
 	}
 
 	el := &vc13ErrLog{}
-	u, err := vc13NewUnits(os.Getenv(vc13EnvDir), os.Getenv(vc13EnvURL), el, vc13ChildTimeout, true)
+	u, err := vc13NewUnits(os.Getenv(vc13EnvDir), os.Getenv(vc13EnvURL), el, vc13ChildTimeout, true, vc13CrashHashMax)
 	if err != nil {
 		fmt.Printf("VC13-ERR %v\n", err)
 		os.Exit(3)
@@ -100,9 +104,16 @@ func vc13GenKill(t *rapid.T) (k *vc13Kill) {
 	crashFaults := []vc13Kind{vc13ConnClose, vc13S404, vc13S500, vc13Empty, vc13Oversize, vc13ShortCL, vc13ChunkTrunc}
 	for _, tg := range vc13Targets {
 		sc := vc13Script{Kind: vc13OKNew, Fill: rapid.IntRange(0, 12).Draw(t, "fill-"+tg)}
+		isHash := tg == "adult" || tg == "danger" || tg == "newreg"
 		if tg != "idx" && rapid.IntRange(0, 7).Draw(t, "fault-"+tg) == 0 {
 			sc.Kind = rapid.SampledFrom(crashFaults).Draw(t, "kind-"+tg)
 			sc.CutPct = rapid.SampledFrom([]int{10, 50, 90}).Draw(t, "cut-"+tg)
+			if isHash && sc.Kind == vc13Oversize {
+				sc.Kind = vc13S500
+			}
+		} else if isHash && rapid.Bool().Draw(t, "big-"+tg) {
+			// About 0.3 to 1 MB.
+			sc.Fill = rapid.IntRange(10_000, 35_000).Draw(t, "bigfill-"+tg)
 		}
 
 		k.Scripts[tg] = sc
@@ -139,7 +150,8 @@ const vc13CrashRule = "a case is one SIGKILL of a child process that refreshes a
 // TestVerifC13CrashPoints is C13 (b).
 func TestVerifC13CrashPoints(t *testing.T) {
 	st := vstat.New("C13", "crash", vc13CrashRule,
-		"kill:body-in-flight", "kill:between-bodies", "files:some-new-some-previous", "restart:checked")
+		"kill:body-in-flight", "kill:between-bodies", "files:some-new-some-previous", "restart:checked",
+		"trigger:after-last-byte", "probe:looked-while-body-in-flight")
 	st.Finish(t)
 
 	msgs := agdtest.NewConstructor(t)
@@ -148,7 +160,7 @@ func TestVerifC13CrashPoints(t *testing.T) {
 	rapid.Check(t, func(t *rapid.T) {
 		k := vc13GenKill(t)
 
-		w := vc13NewWorld(t, st, msgs, baseDir, true, vc13ChildTimeout)
+		w := vc13NewWorld(t, st, msgs, baseDir, true, vc13ChildTimeout, vc13CrashHashMax)
 		defer w.close()
 
 		tmpDir, err := os.MkdirTemp(baseDir, "tmp-")
@@ -176,7 +188,7 @@ func TestVerifC13CrashPoints(t *testing.T) {
 		seq.Rounds = []vc13Round{r1, r2}
 
 		resps, _ := w.plan(1, &r1)
-		w.srv.setPlan(resps, nil)
+		w.srv.setPlan(resps, nil, nil)
 		pnc := w.u.refreshAll(w.el, true, vc13CtxGenerous)
 		w.srv.endRound()
 		if emsgs := w.el.take(); pnc != nil || len(emsgs) > 0 {
@@ -204,7 +216,8 @@ func TestVerifC13CrashPoints(t *testing.T) {
 				r.delay = time.Duration(k.DelayUS) * time.Microsecond
 			}
 		}
-		w.srv.setPlan(resps, nil)
+		probe := w.newProbe(v1, info)
+		w.srv.setPlan(resps, nil, probe.look)
 
 		trig := w.srv.arm(-1, -1)
 		if k.Mode == "event" {
@@ -312,7 +325,11 @@ func TestVerifC13CrashPoints(t *testing.T) {
 		for range lines {
 		}
 		werr := cmd.Wait()
+		nLooks, probeFail := probe.finish()
 		hits := w.srv.endRound()
+		if probeFail != "" {
+			t.Fatalf("C13 violated: %s\ncase: %s", probeFail, vc13JSON(k))
+		}
 
 		killed := false
 		if ee, ok := werr.(*exec.ExitError); ok {
@@ -323,6 +340,9 @@ func TestVerifC13CrashPoints(t *testing.T) {
 
 		var classes []string
 		nt := false
+		if nLooks > 0 {
+			classes = append(classes, "probe:looked-while-body-in-flight")
+		}
 		switch {
 		case !killed:
 			classes = append(classes, "kill:child-finished-first")
@@ -349,7 +369,7 @@ func TestVerifC13CrashPoints(t *testing.T) {
 
 		// Byte clause: every file is its version 1 or the completely
 		// delivered version 2.
-		files, err := vc13ReadFiles(w.dir)
+		files, _, err := vc13ReadFiles(w.dir)
 		if err != nil {
 			t.Fatalf("harness: %v", err)
 		}
